@@ -1345,7 +1345,10 @@ class BinaryOperator(SymbolicExpression, ABC):
             for conc in self._conclusion_:
                 required_vars.update(conc._unique_variables_)
         if self._parent_:
-            required_vars.update(self._parent_._required_variables_from_child_(self, when_true))
+            # A true left operand does not make the operator true: that still depends on the right operand, so the
+            # parent has to be asked for what it needs in either case.
+            when_iam = None if (child is self.left and when_true) else when_true
+            required_vars.update(self._parent_._required_variables_from_child_(self, when_iam))
         return required_vars
 
 
